@@ -40,9 +40,9 @@ def make_acceptor(ae, max_pdu_length=None):
     return acc
 
 
-def make_ae(title='SCP', supported_ts=None, max_pdu_length=65536, services=()):
+def make_ae(title='SCP', supported_ts=None, max_pdu_length=65536, services=(), cls=None):
     from pynetdicom2 import applicationentity
-    ae = applicationentity.AE(title, 0, supported_ts, max_pdu_length, bind_and_activate=False)
+    ae = (cls or applicationentity.AE)(title, 0, supported_ts, max_pdu_length, bind_and_activate=False)
     ae.server_close()
     for svc in services:
         ae.add_scp(svc)
@@ -86,3 +86,72 @@ class Recorder(object):
     def __call__(self, asce, ctx, *args, **kw):
         self.calls.append((asce, ctx, args))
         return ('called', self.name, ctx)
+
+
+class Link(object):
+    """A negotiated association pair over two StubDULs: what one side hands to its provider is
+    encoded, decoded and reassembled by a real DIMSEDecoder into the other side's receive queue.
+    The acceptor side is served lazily: when the requester waits for a message and none is queued,
+    the acceptor's real _loop() is run on whatever requests are pending."""
+
+    def __init__(self, server_ae, client_ae, contexts, server_max=16384, client_max=16384, remote=None):
+        """contexts: {pc_id: (sop_class, ts)} regarded as accepted by both sides."""
+        from pynetdicom2 import asceprovider
+        from pydicom import uid
+        self.scp = make_acceptor(server_ae, server_max)
+        with stubs.patched_dul():
+            self.scu = asceprovider.AssociationRequester(
+                client_ae, client_max, remote or {'aet': 'SCP', 'address': 'peer', 'port': 104})
+        self.log = []          # (direction, item) for everything handed to a provider
+        self.serving = False
+        self.wire(contexts)
+
+    def wire(self, contexts):
+        from pynetdicom2 import asceprovider
+        from pydicom import uid
+        for pc, (sop, ts) in contexts.items():
+            ctx = asceprovider.PContextDef(pc, uid.UID(sop), uid.UID(ts))
+            self.scp.sop_classes_as_scp[pc] = (pc, uid.UID(sop), uid.UID(ts))
+            self.scp.accepted_contexts[pc] = ctx
+            self.scu.sop_classes_as_scu[uid.UID(sop)] = (pc, uid.UID(ts))
+            self.scu.accepted_contexts[pc] = ctx
+        self.scp.dul.accepted_contexts = self.scp.accepted_contexts
+        self.scu.dul.accepted_contexts = self.scu.accepted_contexts
+        self.scp.association_established = self.scu.association_established = True
+        self.scp.dul.on_send = lambda dul, item: self._deliver('scp->scu', self.scu, item)
+        self.scu.dul.on_send = lambda dul, item: self._deliver('scu->scp', self.scp, item)
+        self.scu.dul.pump = self.serve
+        self.scp.dul.pump = None
+
+    def _deliver(self, direction, dst, item):
+        from pynetdicom2 import fsm, pdu as P
+        self.log.append((direction, item))
+        if hasattr(item, 'pdu_type'):
+            dst.dul.inbox.append(type(item).decode(item.encode()))
+            return
+        dec = fsm.DIMSEDecoder(dst.accepted_contexts, dst.ae.store_in_file, dst.ae.get_file)
+        for p in item:
+            dec.process(P.PDataTfPDU.decode(p.encode()))
+            if not dec.receiving:
+                dst.dul.inbox.append((dec.msg, dec.pc_id))
+                dec = fsm.DIMSEDecoder(dst.accepted_contexts, dst.ae.store_in_file, dst.ae.get_file)
+
+    def serve(self):
+        """Run the acceptor's real dispatch loop on its pending requests (re-entrancy guarded)."""
+        from pynetdicom2 import exceptions, pdu as P
+        if self.serving or not self.scp.dul.inbox:
+            return
+        self.serving = True
+        try:
+            head = self.scp.dul.inbox[0]
+            if getattr(head, 'pdu_type', None) == 5:
+                self.scp.dul.inbox.popleft()
+                self.scu.dul.inbox.append(P.AReleaseRpPDU())
+                return
+            self.scp.is_killed = False
+            try:
+                self.scp._loop()
+            except exceptions.DCMTimeoutError:
+                pass
+        finally:
+            self.serving = False
